@@ -442,10 +442,10 @@ func (w *c28World) relayTask(name string, iters int) {
 	flt := "fault." + name
 	for it := 0; it < iters && r.Violated() == nil; it++ {
 		simrt.Yield("harness:relay-loop")
-		if r.Draw(ops, 5) == 4 {
+		if r.Draw(ops, 3) == 2 {
 			d := time.Duration(1+r.Draw(ops, 200)) * time.Millisecond
-			if r.Draw(ops, 6) == 5 {
-				d = time.Duration(20+r.Draw(ops, 220)) * time.Second // long pause: second-chance / reconnect timers fire
+			if r.Draw(ops, 5) == 4 {
+				d = time.Duration(60+r.Draw(ops, 340)) * time.Second // long pause: second-chance / reconnect timers fire
 			}
 			simrt.Yield("harness:relay-think")
 			time.Sleep(d)
@@ -772,7 +772,7 @@ func (w *c28World) update(stream string, epoch uint64) {
 func (w *c28World) pairingTask(n int) {
 	r := w.r
 	for i := 0; i < n && r.Violated() == nil; i++ {
-		d := time.Duration(5+r.Draw("ops.pairing", 400)) * time.Millisecond
+		d := time.Duration(1+r.Draw("ops.pairing", 120)) * time.Millisecond
 		if r.Draw("ops.pairing", 5) == 4 {
 			d = time.Duration(10+r.Draw("ops.pairing", 200)) * time.Second
 		}
@@ -863,7 +863,6 @@ func runC28(r *simrt.Run) {
 		optimizer.SetDeterministicSeed(int64(r.Draw64("cfg") >> 1))
 		w.csm = NewConsumerSessionManager(&RPCEndpoint{NetworkAddress: "stub", ChainID: "LAV1", ApiInterface: "rest", HealthCheckPath: "/", Geolocation: 1}, optimizer, nil, "lava@consumer", NewActiveSubscriptionProvidersStorage())
 
-		w.curEpoch = 20
 		w.update("cfg", 20)
 
 		for i := 0; i < w.nRelay; i++ {
